@@ -172,6 +172,68 @@ def scn_equiv(T, case):
                 T.same(full[1].gradients.objectives, red[1].gradients.objectives) & T.same(full[1].gradients.weighted_objective, red[1].gradients.weighted_objective))
 
 
+# ------------------------------------------------------------------------------------ realizations that fail only through their perturbations
+def cases_pertfail(tier):
+    # (R, P, perturbation_min_success, failure matrix)
+    pats = [(2, 2, 2, [[True, False], [False, False]]), (3, 2, 2, [[False, False], [False, True], [False, False]]), (2, 2, 1, [[True, True], [False, False]])]
+    if tier == "thorough":
+        pats += [(3, 2, 1, [[True, True], [False, True], [False, False]]), (2, 3, 2, [[True, True, False], [False, True, False]])]
+    for R, P, pms, pf in pats:
+        for merge in (False, True):
+            for ms in (1, R):
+                yield "R%dP%d/min_pert=%d/%s/%s/min=%d" % (R, P, pms, "|".join("".join("F" if f else "o" for f in row) for row in pf), "merged" if merge else "per-realization", ms), {
+                    "R": R, "P": P, "pms": pms, "pf": pf, "merge": merge, "min_success": ms}
+
+
+def scn_pertfail(T, case):
+    """Combined function+gradient evaluation in which all unperturbed evaluations succeed: a realization with fewer than
+    perturbation_min_success successful perturbations is failed for the gradient only, and its surviving perturbations are as if absent."""
+    from ropt.exceptions import OptimizationAborted
+
+    R, P, pms, pf, J, N = case["R"], case["P"], case["pms"], case["pf"], 1, 1
+    inv = H.InvertContract(T) if T.symbolic else None
+    ch = H.Chain(T, stubs={(MG, "_invert_linear_equations"): inv} if T.symbolic else None)
+    w = T.real("weights", (R,), lo=0.001)
+    O, PO, S, x = T.real("O", (R, J)), T.real("PO", (R, P, J)), T.real("samples", (R, P, N)), T.real("x", (N,))
+    fail_g = [(P - sum(pf[r])) < pms for r in range(R)]
+    keep = [r for r in range(R) if not fail_g[r]]
+
+    def run(Rn, wv, Ov, POv, Sv, pfv, ms):
+        def fobj(v, r, p, k):
+            if p is None or p < 0:
+                return Ov[r]
+            return T.np.array([np.nan] * J) if pfv[r][p] else POv[r, p]
+
+        cfg = H.make_config(T, Rn, J, 0, N, weights=wv, ow=T.const(np.array([1.0])), P=P, min_success=ms, pert_min_success=pms, magnitudes=T.const(np.ones(N)), merge=case["merge"])
+        ev = H.make_evaluator(T, ch, cfg, H.ScriptedEvaluator(T, ch, fobj), estimators=[H.estimator(ch, "mean", merge=case["merge"])], samplers=[H.FakeSampler(Sv)])
+        return ev.calculate(x, compute_functions=True, compute_gradients=True)
+
+    try:
+        fres, gres = run(R, w, O, PO, S, pf, case["min_success"])
+    except OptimizationAborted:
+        T.fail("C03.pertfail.no_abort_expected")
+        return
+    T.prove("C03.pertfail.functions_unaffected_by_perturbation_failures", fres.functions is not None and [bool(b) for b in fres.realizations.failed_realizations] == [False] * R)
+    T.prove("C03.pertfail.realizations_with_too_few_successful_perturbations_are_failed_for_the_gradient", [bool(b) for b in gres.realizations.failed_realizations] == fail_g)
+    if len(keep) < case["min_success"]:
+        T.prove("C03.pertfail.no_gradients_below_realization_min_success", gres.gradients is None)
+        return
+    T.prove("C03.pertfail.gradients_present_at_realization_min_success", gres.gradients is not None)
+    if gres.gradients is None:
+        return
+    # the ensemble without those realizations
+    Rr = len(keep)
+    f2, g2 = run(Rr, T.np.array([w[r] for r in keep]), T.np.array([[O[r, 0]] for r in keep]), T.np.array([[[PO[r, p, 0]] for p in range(P)] for r in keep]),
+                 T.np.array([[[S[r, p, 0]] for p in range(P)] for r in keep]), [pf[r] for r in keep], min(case["min_success"], Rr))
+    if not T.symbolic:
+        import contracts.C02 as C02
+
+        pv = np.asarray(S)
+        T.assume(all(C02.cond_ok(np.array([[pv[r, p, 0]] for p in range(P) if not pf[r][p]])) for r in keep))
+    eq = (lambda a, b: T.same(a, b)) if T.symbolic else (lambda a, b: T.close(a, b, 1e-7))
+    T.prove("C03.pertfail.gradients_equal_those_of_the_ensemble_without_the_failed_realizations", eq(gres.gradients.objectives, g2.gradients.objectives) & eq(gres.gradients.weighted_objective, g2.gradients.weighted_objective))
+
+
 # ------------------------------------------------------------------------------------ gradient-only evaluation after a function evaluation
 def cases_split(tier):
     for R, P in ((2, 2), (3, 1)) if tier == "quick" else ((2, 2), (3, 1), (2, 3), (3, 2)):
@@ -267,6 +329,7 @@ SCENARIOS = [
     Scenario("failure_flags", scn_flags, cases_flags, {"quick": 10, "thorough": 100}),
     Scenario("reduced_ensemble_equivalence", scn_equiv, cases_equiv, {"quick": 3, "thorough": 20}),
     Scenario("gradient_after_function_evaluation", scn_split, cases_split, {"quick": 5, "thorough": 30}),
+    Scenario("failed_through_perturbations", scn_pertfail, cases_pertfail, {"quick": 5, "thorough": 30}),
     Scenario("run_evaluations", scn_run, cases_run, {"quick": 1, "thorough": 1}),
 ]
 
